@@ -36,6 +36,10 @@ def run(ctx):
     import c13
     if ctx.harness(['p_closecount']):
         c13.close_counts(ctx, only=lambda name: 'reader_gone' in name or name.endswith('unregistered'))
+    # ... and the iterator's action: the last Handle dropped by another thread at every instruction boundary of a running delivery
+    import ls_iter
+    if ctx.harness(['p_nested_iter']):
+        ls_iter.instr_sweep(ctx, ('RELEASE', 'ALLOC', 'CRASH'), configs=[('o', 'G', '-'), ('r', 'G', '-')], key='instruction_sweep_handle_dropped_during_delivery')
     ctx.coverage['rule'] = ('scenarios {unregister | unregister_signal | first/second registration} x 1-2 deliveries (incl. prior foreign handler), '
                             'every split point of one activity against the other + random 2-preemption and random run-length schedules; '
                             'distinct_nontrivial = distinct implementation traces in which at least two activities interleave; monitors: '
@@ -76,6 +80,9 @@ def replay(ctx, path):
     sc = case.get('case', {}).get('scenario')
     if case.get('case', {}).get('reg_sweep'):
         return L.reg_replay(ctx, case['case'], L.REG_KINDS['C01'])
+    if case.get('case', {}).get('instr_sweep'):
+        import ls_iter
+        return ls_iter.instr_replay(ctx, case['case'], ('RELEASE', 'ALLOC', 'CRASH'))
     if not sc:
         print('replay file names no concrete input:', json.dumps(case.get('broken'), indent=1)[:2000])
         return 1
